@@ -290,23 +290,28 @@ Proof.
   inversion H; subst. eapply ext_trans; [exact H1|]. apply ext_create; auto.
 Qed.
 
-(* a successful entry leaves its data at the path its joined name denotes *)
+(* a successful entry leaves its data at the path its joined name denotes, and nothing
+   was there before *)
 Lemma write_one_ok g fl cwd fs dir nd fs' :
   excl fl -> write_one g fl cwd fs dir nd = (fs', WOk) ->
   rejected g (clean (from_slash (fst nd))) = false /\
-  get fs' (resolve cwd (join dir (clean (from_slash (fst nd))))) = Some (File (snd nd)).
+  get fs' (resolve cwd (join dir (clean (from_slash (fst nd))))) = Some (File (snd nd)) /\
+  get fs (resolve cwd (join dir (clean (from_slash (fst nd))))) = None.
 Proof.
   intros Hx H. unfold write_one in H.
   destruct (rejected g (clean (from_slash (fst nd)))); [discriminate|]. split; auto.
   match type of H with context [mkdir_all ?f cwd fs ?s] =>
     destruct (mkdir_all f cwd fs s) as [fs1 r1] eqn:EM end.
+  pose proof (mkdir_all_any _ _ _ _ _ _ EM) as H1.
   destruct r1; try discriminate.
   match type of H with context [os_open fl cwd fs1 ?s] =>
     destruct (os_open fl cwd fs1 s) as [e|[fs2 h]] eqn:EO end; [discriminate|].
   destruct (os_open_excl _ _ _ _ _ _ Hx EO) as [Eh [HN E2]].
   subst fs2. pose proof (get_none_nonroot _ _ HN) as Hh.
-  rewrite os_write_new in H by auto. inversion H; subst.
-  rewrite get_cons_same by auto. reflexivity.
+  rewrite os_write_new in H by auto. inversion H; subst. split.
+  - rewrite get_cons_same by auto. reflexivity.
+  - destruct (get fs (resolve cwd (join dir (clean (from_slash (fst nd)))))) as [x|] eqn:EG; auto.
+    rewrite (ext_preserves _ _ _ _ _ H1 EG) in HN. discriminate.
 Qed.
 
 (* ------------------------------------------------------------------ the whole archive *)
@@ -354,9 +359,25 @@ Proof.
   simpl in H. destruct (write_one g fl cwd fs dir nd) as [fs1 r1] eqn:E1.
   destruct r1; try discriminate.
   destruct HI as [->|HI].
-  - destruct (write_one_ok _ _ _ _ _ _ _ Hx E1) as [_ HG]. simpl in HG.
+  - destruct (write_one_ok _ _ _ _ _ _ _ Hx E1) as [_ [HG _]]. simpl in HG.
     eapply ext_preserves; [eapply write_gen_preserves; eauto|exact HG].
   - eapply IH; eauto.
+Qed.
+
+(* success means that no entry's file existed before the call (as a file or a directory) *)
+Theorem write_gen_fresh g fl cwd fs dir files fs' :
+  excl fl -> write_gen g fl cwd fs dir files = (fs', WOk) ->
+  forall n d, In (n, d) files ->
+    get fs (resolve cwd (join dir (clean (from_slash n)))) = None.
+Proof.
+  intros Hx. revert fs. induction files as [|nd rest IH]; intros fs H n d HI; [contradiction|].
+  simpl in H. destruct (write_one g fl cwd fs dir nd) as [fs1 r1] eqn:E1.
+  destruct r1; try discriminate.
+  destruct HI as [->|HI].
+  - destruct (write_one_ok _ _ _ _ _ _ _ Hx E1) as [_ [_ HN]]. exact HN.
+  - pose proof (IH _ H n d HI) as HN1.
+    destruct (get fs (resolve cwd (join dir (clean (from_slash n))))) as [x|] eqn:EG; auto.
+    rewrite (ext_preserves _ _ _ _ _ (write_one_any _ _ _ _ _ _ _ _ Hx E1) EG) in HN1. discriminate.
 Qed.
 
 (* ------------------------------------------------------------------ the current source *)
@@ -425,4 +446,13 @@ Theorem write_contents cwd fs dir a fs' :
   forall n d, In (n, d) (files a) -> get fs' (resolve cwd (join dir (clean n))) = Some (File d).
 Proof.
   intros H n d HI. apply (write_gen_contents _ _ _ _ _ _ _ the_flags_excl H n d HI).
+Qed.
+
+(* an entry whose file exists before the call (as a file or as a directory) makes Write
+   return an error: on success nothing was at any entry's path *)
+Theorem write_existing_is_error cwd fs dir a fs' :
+  write cwd fs dir a = (fs', WOk) ->
+  forall n d, In (n, d) (files a) -> get fs (resolve cwd (join dir (clean n))) = None.
+Proof.
+  intros H n d HI. apply (write_gen_fresh _ _ _ _ _ _ _ the_flags_excl H n d HI).
 Qed.
